@@ -1,10 +1,12 @@
 (* Props/C06.v -- property C06: turning blocks into labels and jumps preserves behaviour.
    Only statements; every proof is [exact lemma].
 
-   [run_struct L fuel Lax] is AstVm on the nested program, [run_flat] is AstVm on the flat
+   [run_struct L fuel (Lax tr)] is AstVm on the nested program (tr: does vm.rs assign `time` at
+   the fall-through points -- read out of the source by gen/desugar_rules.py), [run_flat] is AstVm on the flat
    statement list that [desugar] (passes::desugar_blocks::run) produces; a state carries script
    time, real time, the instruction log (with real times) and the registers.  [Strict fl] is
-   AstVm instrumented with three run-time guards (Model/Blocks.v); the theorems say exactly
+   AstVm instrumented with run-time guards (Model/Blocks.v: the two `times` guards, and for
+   [tg = true] the time guard); the theorems say exactly
    when the two interpreters agree, and that outside the guards they do not. *)
 From TV Require Import Base.I32 Model.Blocks Model.BlocksInst Gen.DesugarRules
   Proofs.BlocksStatic Proofs.BlocksSim Proofs.BlocksMono Proofs.BlocksInst.
@@ -30,14 +32,16 @@ Qed.
 (* (2) forward simulation, all constructs, unbounded nesting and iteration counts, every initial
        state: a terminating guarded run of the nested program is reproduced exactly by the flat
        program -- same final time, real time, instruction log and registers; the `times`
-       temporaries [tm'] live outside the register file *)
+       temporaries [tm'] live outside the register file.  [tg = true]: guarded against the three
+       conditions; [tg = false]: AstVm without the assignments at fall-through points, guarded
+       against the two `times` conditions only *)
 Theorem C06_desugar_correct : forall (L : lang), lang_laws L ->
-  forall fl (p : block L) st fuel st',
+  forall tg fl (p : block L) st fuel st',
     wf_prog L p = true ->
-    run_struct L fuel (Strict fl) p st = Ok st' ->
+    run_struct L fuel (Strict tg fl) p st = Ok st' ->
     exists fuel' tm', run_flat L fuel' (desugar L fl p) st = Ok (st', tm').
 Proof.
-  exact (fun L H fl p st fuel st' => desugar_correct_strict L fl (proj1 H) (proj1 (proj2 H)) (proj2 (proj2 H)) p st fuel st').
+  exact (fun L H tg fl p st fuel st' => desugar_correct_strict L tg fl (proj1 H) (proj1 (proj2 H)) (proj2 (proj2 H)) p st fuel st').
 Qed.
 
 (* (3) the flat interpreter is a function: whatever fuel, a finished flat run has that result *)
@@ -45,39 +49,42 @@ Theorem C06_flat_deterministic : forall (L : lang) k k' env t c s r r',
   frun L k env t c s = Ok r -> frun L k' env t c s = Ok r' -> r = r'.
 Proof. exact frun_det. Qed.
 
-(* (4) a guarded run is an AstVm run *)
-Theorem C06_strict_is_astvm : forall (L : lang) fl (p : block L) st fuel st',
-  run_struct L fuel (Strict fl) p st = Ok st' -> run_struct L fuel Lax p st = Ok st'.
+(* (4) a guarded run is an AstVm run: with the time guard, of vm.rs as found and of the patched
+       vm.rs alike; without it, of the patched vm.rs *)
+Theorem C06_strict_is_astvm : forall (L : lang) fl tg tr, tg = true \/ tr = false ->
+  forall (p : block L) st fuel st',
+  run_struct L fuel (Strict tg fl) p st = Ok st' -> run_struct L fuel (Lax tr) p st = Ok st'.
 Proof. exact strict_lax. Qed.
 
 (* (5) the concrete integer language used by the correspondence satisfies the laws *)
 Theorem C06_IL_laws : lang_laws IL.
 Proof. exact (conj IL_const (conj IL_i32 IL_rw)). Qed.
 
-Theorem C06_desugar_correct_IL : forall fl (p : block IL) st fuel st',
+Theorem C06_desugar_correct_IL : forall tg fl (p : block IL) st fuel st',
   wf_prog IL p = true ->
-  run_struct IL fuel (Strict fl) p st = Ok st' ->
+  run_struct IL fuel (Strict tg fl) p st = Ok st' ->
   exists fuel' tm', run_flat IL fuel' (desugar IL fl p) st = Ok (st', tm').
 Proof. exact desugar_correct_IL. Qed.
 
-(* (6) the statement without the guards is false: AstVm's nested interpreter and the jump form
-       differ (a) after a time label that goes backwards, (b) for a negative `times` count,
-       (c) for a named counter driven below zero under the `--c > 0` flavour *)
-Definition C06_full : Prop :=
+(* (6) the statement without the guards is false, for vm.rs as found ([tr = true]) and with the
+       time-reset patch ([tr = false]) alike: AstVm's nested interpreter and the jump form differ
+       (a) [tr = true only] after a time label that goes backwards, (b) for a negative `times`
+       count, (c) for a named counter driven below zero under the `--c > 0` flavour *)
+Definition C06_full (tr : bool) : Prop :=
   forall (L : lang), lang_laws L ->
   forall fl (p : block L) st fuel st',
     wf_prog L p = true ->
-    run_struct L fuel Lax p st = Ok st' ->
+    run_struct L fuel (Lax tr) p st = Ok st' ->
     exists fuel' tm', run_flat L fuel' (desugar L fl p) st = Ok (st', tm').
 
-Theorem C06_full_refuted_time_reset : refuted PredecNeZero cex_time (init 0 []).
+Theorem C06_full_refuted_time_reset : refuted true PredecNeZero cex_time (init 0 []).
 Proof. exact cex_time_reset. Qed.
-Theorem C06_full_refuted_neg_count : refuted PredecGtZero cex_negcount (init 0 [(0, -1)]).
+Theorem C06_full_refuted_neg_count : forall tr, refuted tr PredecGtZero cex_negcount (init 0 [(0, -1)]).
 Proof. exact cex_neg_count. Qed.
-Theorem C06_full_refuted_neg_counter : refuted PredecGtZero cex_negcounter (init 0 []).
+Theorem C06_full_refuted_neg_counter : forall tr, refuted tr PredecGtZero cex_negcounter (init 0 []).
 Proof. exact cex_neg_counter. Qed.
 
-Theorem C06_full_refuted : ~ C06_full.
+Theorem C06_full_refuted : forall tr, ~ C06_full tr.
 Proof. exact full_refuted. Qed.
 
 (* (6') the time guard is implied by a static condition: if no time label goes backwards
@@ -89,12 +96,12 @@ Theorem C06_monotone_no_time_reset : forall (L : lang),
   (forall v r, rd L v r <> Err E_TIMERESET) ->
   forall fl (p : block L) st fuel,
     wf_prog L p = true -> mono_block L p 0 = true -> s_time st <= 0 ->
-    run_struct L fuel (Strict fl) p st <> Err E_TIMERESET.
+    run_struct L fuel (Strict true fl) p st <> Err E_TIMERESET.
 Proof. exact (fun L H1 H2 H3 fl => monotone_no_time_reset L fl H1 H2 H3). Qed.
 
 Theorem C06_monotone_no_time_reset_IL : forall fl (p : block IL) st fuel,
   wf_prog IL p = true -> mono_block IL p 0 = true -> s_time st <= 0 ->
-  run_struct IL fuel (Strict fl) p st <> Err E_TIMERESET.
+  run_struct IL fuel (Strict true fl) p st <> Err E_TIMERESET.
 Proof. exact monotone_no_time_reset_IL. Qed.
 
 (* (7) tie 1: the `times` zero-test rule ("unless the count is a non-zero constant"), the flavour
@@ -112,7 +119,7 @@ Definition C06_preserves_divergence : Prop :=
   forall (L : lang), lang_laws L ->
   forall fl (p : block L) st,
     wf_prog L p = true ->
-    (forall fuel, run_struct L fuel (Strict fl) p st = OutOfFuel) ->
+    (forall fuel, run_struct L fuel (Strict true fl) p st = OutOfFuel) ->
     forall fuel', run_flat L fuel' (desugar L fl p) st = OutOfFuel.
 
 (* non-vacuity: a program with every construct nested (Proofs/BlocksInst.v: demo) is well formed
@@ -120,8 +127,8 @@ Definition C06_preserves_divergence : Prop :=
 Example C06_demo_wf : wf_prog IL demo = true.
 Proof. exact demo_wf. Qed.
 Example C06_demo_runs :
-  match run_struct IL 200 (Strict PredecNeZero) demo (init 0 [(0, 2)]) with
+  match run_struct IL 200 (Strict true PredecNeZero) demo (init 0 [(0, 2)]) with
   | Ok st' => Nat.eqb (length (s_log st')) 11 | _ => false end = true
-  /\ match run_struct IL 200 (Strict PredecGtZero) demo (init 0 [(0, 2)]) with
+  /\ match run_struct IL 200 (Strict true PredecGtZero) demo (init 0 [(0, 2)]) with
      | Ok st' => Nat.eqb (length (s_log st')) 11 | _ => false end = true.
 Proof. exact (conj demo_runs_ne demo_runs_gt). Qed.
